@@ -17,6 +17,7 @@ type Snap struct {
 	MatCount []int
 	MatPtr   []*modeling.Material
 	MatVal   []modeling.Material
+	MatURIs  []string
 	MatNil   bool // Materials() == nil
 	V1       map[string][]uint64
 	V2       map[string][]uint64
@@ -47,8 +48,20 @@ func Take(m modeling.Mesh) *Snap {
 		s.MatPtr = append(s.MatPtr, mm.Material)
 		if mm.Material != nil {
 			s.MatVal = append(s.MatVal, *mm.Material)
+			// what the texture URI pointers point at, by value (the struct
+			// copy above shares the pointees with the live material)
+			uris := ""
+			for _, u := range []*string{mm.Material.ColorTextureURI, mm.Material.NormalTextureURI, mm.Material.SpecularTextureURI} {
+				if u == nil {
+					uris += "<nil>|"
+				} else {
+					uris += *u + "|"
+				}
+			}
+			s.MatURIs = append(s.MatURIs, uris)
 		} else {
 			s.MatVal = append(s.MatVal, modeling.Material{})
+			s.MatURIs = append(s.MatURIs, "")
 		}
 	}
 	for _, a := range m.Float1Attributes() {
@@ -195,6 +208,9 @@ func Diff(a, b *Snap) string {
 		}
 		if !reflect.DeepEqual(a.MatVal[i], b.MatVal[i]) {
 			return fmt.Sprintf("material[%d] content changed", i)
+		}
+		if a.MatURIs[i] != b.MatURIs[i] {
+			return fmt.Sprintf("material[%d] texture URIs changed: %s -> %s", i, a.MatURIs[i], b.MatURIs[i])
 		}
 	}
 	if d := diffMap(1, "float1", a.V1, b.V1); d != "" {
